@@ -1685,6 +1685,8 @@ func (idx *MergeSetIndex) WriteDeleteTsids(tsids []uint64) error {
 	} else {
 		return errors.New("curDeleted must be *uint64set.Set")
 	}
+	// cached tag filter results may contain the tsids that have just been deleted
+	invalidateTagCache()
 
 	return idx.tb.AddItems(items)
 }
